@@ -112,6 +112,7 @@ def handleC20 : List String → String
     | none => "bad-op"
   | ["alead", "bam"] => hexOf ((aPlain .bam {}).take 4)
   | ["alead", "cram"] => hexOf ((aPlain .cram {}).take 6)
+  | ["alead", "cram31"] => hexOf ((aPlain .cram { cramVersion := (3, 1) }).take 6)
   | ["vlead", "vcf"] => hexOf ((vPlain .vcf []).take 17)
   | ["vlead", "bcf"] => hexOf ((vPlain .bcf []).take 5)
   | _ => "bad-op"
